@@ -8,6 +8,7 @@ import (
 
 	"github.com/fogfish/golem/pure"
 	"github.com/fogfish/golem/pure/eq"
+	"github.com/fogfish/golem/pure/monoid"
 	"github.com/fogfish/golem/pure/ord"
 )
 
@@ -113,3 +114,30 @@ func checkContraMapIface() {
 		})
 	contraOver("map", []map[string]int{nil, {}, {"a": 1}, {"a": 1, "b": 2}}, func(m map[string]int) int { return len(m) })
 }
+
+// a monoid made from an element and NO semigroup (a nil interface: the operation was never configured) still has the
+// given element as its Empty - folds over nothing, which never combine, use just that
+func checkMonoidWithoutSemigroup() {
+	for _, e := range []int{0, 7, -1} {
+		c := caseT{Kind: "monoid.From/nil-semigroup", A: e}
+		rec.Eval(fmt.Sprint("monoid-nil", e), true)
+		var got int
+		if p := common.Catch(func() { got = monoidFromNil(e).Empty() }); p != nil {
+			bad("monoid.From", fmt.Sprintf("From(%d, nil): taking Empty() of the result panics: %v (the given element is its Empty whatever the operation is)", e, p), c)
+		} else if got != e {
+			bad("monoid.From", fmt.Sprintf("From(%d, nil).Empty() = %d", e, got), c)
+		}
+	}
+	for _, e := range []string{"", "#"} {
+		c := caseT{Kind: "monoid.From/nil-semigroup", A: e}
+		rec.Eval(fmt.Sprint("monoid-nil-s", e), true)
+		var got string
+		if p := common.Catch(func() { got = monoid.From[string](e, nil).Empty() }); p != nil {
+			bad("monoid.From", fmt.Sprintf("From(%q, nil): taking Empty() of the result panics: %v", e, p), c)
+		} else if got != e {
+			bad("monoid.From", fmt.Sprintf("From(%q, nil).Empty() = %q", e, got), c)
+		}
+	}
+}
+
+func monoidFromNil(e int) monoid.Monoid[int] { return monoid.From[int](e, nil) }
